@@ -927,6 +927,17 @@ class SyncObj(object):
                     self.__sendNextNodeIdx(node, success=False, reset=True)
                     return
                 if prevEntries[0][2] != prevLogTerm:
+                    # The entry at prevLogIdx conflicts with the leader's log: it and everything after it
+                    # is dropped right away. Otherwise the batches the leader has already sent after this
+                    # one are answered with "next = last index + 1", which moves the leader's next index
+                    # back up and the same exchange repeats forever.
+                    if prevLogIdx > self.__raftCommitIndex:
+                        if self.__conf.dynamicMembershipChange:
+                            for entry in reversed(prevEntries):
+                                clusterChangeRequest = self.__parseChangeClusterRequest(entry[0])
+                                if clusterChangeRequest is not None:
+                                    self.__doChangeCluster(clusterChangeRequest, reverse=True)
+                        self.__deleteEntriesFrom(prevLogIdx)
                     self.__sendNextNodeIdx(node, nextNodeIdx = prevLogIdx, success = False, reset=True)
                     return
                 nextNodeIdx = prevLogIdx + 1
